@@ -52,6 +52,7 @@ type Obligation struct {
 }
 
 type VC struct {
+	sortBusy map[string]bool // types whose sort is under construction (cycle guard)
 	monotoneMapStore bool            // the map store being executed is to a `monotone-map` variable
 	catMemo          map[string]*Term // string concatenations already built (functional)
 	splitTail       ast.Stmt // `loop N split`: the switch ending the loop body, whose case ends are separate paths
@@ -248,7 +249,12 @@ func (c *VC) sortOf(t types.Type) *Sort {
 	if s, ok := c.sortMemo[key]; ok {
 		return s
 	}
+	if c.sortBusy == nil {
+		c.sortBusy = map[string]bool{}
+	}
+	c.sortBusy[key] = true
 	s := c.sortOf1(t)
+	delete(c.sortBusy, key)
 	c.sortMemo[key] = s
 	return s
 }
@@ -276,7 +282,11 @@ func (c *VC) sortOf1(t types.Type) *Sort {
 		}
 		return sortInt
 	case *types.Slice:
-		c.sortOf(u.Elem())
+		// a struct may contain slices of itself (filedesc.Message.L2.Messages.List): the element
+		// sort is then being built further up and will be declared by the time it is needed
+		if !c.sortBusy[types.TypeString(u.Elem(), nil)] {
+			c.sortOf(u.Elem())
+		}
 		return c.sliceSort()
 	case *types.Array:
 		return arraySort(c.idxSort(), c.sortOf(u.Elem()))
